@@ -430,7 +430,9 @@ func (m *Machine) tick() (bool, error) {
 			// saving everything can only lower what the account may still send: a balance that is
 			// already zero or negative stays as it is
 			if accBalances, ok := m.Balances[a]; ok {
-				if balance, ok := accBalances[v]; !ok || balance.Gt(machine.Zero) {
+				// an asset the machine does not track for this account is not sent from it: creating
+				// an entry here would let a later source draw on a balance that was never loaded
+				if balance, ok := accBalances[v]; ok && balance.Gt(machine.Zero) {
 					accBalances[v] = machine.Zero
 				}
 			}
@@ -442,7 +444,9 @@ func (m *Machine) tick() (bool, error) {
 			}
 			// an account no send takes from has no tracked balance: nothing to protect
 			if accBalances, ok := m.Balances[a]; ok {
-				accBalances[v.Asset] = accBalances[v.Asset].Sub(v.Amount)
+				if balance, ok := accBalances[v.Asset]; ok {
+					accBalances[v.Asset] = balance.Sub(v.Amount)
+				}
 			}
 		default:
 			panic(fmt.Errorf("invalid value type: %T", v))
